@@ -352,9 +352,9 @@ def emit_fn(u, it, opts, header_lines, spec_lines, canary, recursor_file):
             header, _ = X.rename_ident(header, a, b)
     if opts.get('subst_text'):
         # R10 (qualified trait-static call -> prelude stub with the same contract)
-        for pair in [opts['subst_text']]:
+        for pair in opts['subst_text'].split(';;'):
             a, _, b = pair.partition('::=')
-            a, b = a.replace('~', ' '), b.replace('~', ' ')
+            a, b = a.replace('~', ' ').replace('@Q@', "'"), b.replace('~', ' ').replace('@Q@', "'")
             n0 = body.count(a)
             if n0 == 0:
                 raise X.AnchorLost('%s: subst_text pattern %r not found in %s' % (u.file, a, name))
